@@ -24,7 +24,7 @@ def replay(path):
     import subprocess, simgen
     rp = core.load_replay(path)
     eng = (rp.get("engine") or "sim/linux/dev").split("/")
-    exe, _ = simgen.build(eng[1], eng[2])
+    exe, _ = simgen.build(eng[1], eng[2], __import__('props._sim', fromlist=['NEEDS']).NEEDS['c16'])
     p = subprocess.run([exe, "c16", "--seed", str(rp["seed"]), "--tier", rp["tier"], "--only", str(rp["case_index"])], stdout=subprocess.PIPE, text=True)
     print(p.stdout[-2500:])
     return 1 if ('"verdict":"violated"' in p.stdout or p.returncode != 0) else 0
